@@ -156,8 +156,10 @@ CHECKS = {
     },
     "C13": {
         "lean": ["DrummerVerif.Props.C13"],
-        "streams": [dbstream("c13", 250, 4000, ["res", "defs", "kv"]), dbstream("general", 150, 2000, ["res", "defs", "kv"])],
-        "rule": RULE_DB % "c13 (KV writes over 7 keys x 3 instance ids x finalized or not, definitions over 4 ids, snapshots in the middle) and general",
+        "streams": [dbstream("c13", 250, 4000, ["res", "defs", "kv"]), dbstream("general", 150, 2000, ["res", "defs", "kv"]),
+                    {"cmd": "apisrv", "driver": "ApiDriver", "sections": None, "eval_re": r"^case:", "timeout": 1500,
+                     "args": {"quick": ["-n", "6", "-len", "60"], "thorough": ["-n", "100", "-len", "150"]}}],
+        "rule": RULE_DB % "c13 (KV writes over 7 keys x 3 instance ids x finalized or not, definitions over 4 ids, snapshots in the middle) and general" + " | the real Drummer service on a real NodeHost (apisrv): the code SubmitChange reports (OK / SHARD_EXIST / BOOTSTRAPPED) against what the DB decided",
         "assumptions": DB_ASSUME,
     },
     "C10": {
